@@ -99,15 +99,14 @@ def phUnsupportedDefault : String := "unsupported default value case: this is li
 
 def isPkgChar (c : Char) : Bool := c.isAlphanum || c == '_'
 
-def lastSegment (s : String) : String :=
-  match (s.splitOn "/").getLast? with
-  | some l => l
-  | none => s
+/-- the characters after the last `/` (the whole text when there is none) -/
+def afterLastSlash : List Char → List Char → List Char
+  | [], acc => acc.reverse
+  | c :: cs, acc => if c == '/' then afterLastSlash cs [] else afterLastSlash cs (c :: acc)
 
 /-- `formatPackageName`: last path segment (when there are several), `[^a-zA-Z0-9_]+` removed, lower-cased -/
 def fmtPkg (pkg : String) : String :=
-  let seg := if (pkg.splitOn "/").length > 1 then lastSegment pkg else pkg
-  String.ofList ((seg.toList.filter isPkgChar).map Char.toLower)
+  String.ofList (((afterLastSlash pkg.toList []).filter isPkgChar).map Char.toLower)
 
 /-- `%#v` of a dynamic value (fmt's Go-syntax printer) -/
 def sharpVIface : GoTy := .prim "interface{}"
@@ -405,27 +404,60 @@ def fieldLit (c : Ctx) (f : Field) (resolved : Ty) (extras : List (String × Val
   | some ev => .emit (extraLit c f resolved ev)
   | none => ownLit c f resolved nested
 
-mutual
+/-- the loop over the fields, given what one field contributes -/
+def defaultsFieldsWith (g : Field → FieldLit) : List Field → List (String × GoExpr)
+  | [] => []
+  | f :: fs =>
+    match g f with
+    | .skip => defaultsFieldsWith g fs
+    | .emit e => (ucc f.name, e) :: defaultsFieldsWith g fs
+    | .stop => []
+
+/-- one iteration, before the field type is resolved -/
+def defaultsFieldAt (c : Ctx) (f : Field) (extras : List (String × Val))
+    (nested : String → String → List Field → Val → GoExpr) : FieldLit :=
+  if isBad f.ty then .emit (.crash "defaultsForStruct:malformed-field-type") else
+  match c.resolve f.ty with
+  | none => .emit (.crash "defaultsForStruct:ResolveRefs-cycle")
+  | some resolved => fieldLit c f resolved extras nested
+
 /-- `defaultsForStruct(context, objectRef, objectType, maybeExtraDefaults)`; fuel counts the nesting of
     struct defaults (unbounded for a default on a reference that closes a cycle) -/
 def defaultsForStruct (c : Ctx) : Nat → String → String → List Field → Val → GoExpr
   | 0, _, _, _, _ => .crash "defaultsForStruct:unbounded-recursion"
   | fuel + 1, refPkg, refName, fields, extra =>
-    .composite (.named (c.mapPkg refPkg) (ucc refName)) (defaultsFields c fuel fields (extrasOf extra))
-def defaultsFields (c : Ctx) : Nat → List Field → List (String × Val) → List (String × GoExpr)
-  | _, [], _ => []
-  | fuel, f :: fs, extras =>
-    match defaultsField c fuel f extras with
-    | .skip => defaultsFields c fuel fs extras
-    | .emit e => (ucc f.name, e) :: defaultsFields c fuel fs extras
-    | .stop => []
-def defaultsField (c : Ctx) : Nat → Field → List (String × Val) → FieldLit
-  | fuel, f, extras =>
-    if isBad f.ty then .emit (.crash "defaultsForStruct:malformed-field-type") else
-    match c.resolve f.ty with
-    | none => .emit (.crash "defaultsForStruct:ResolveRefs-cycle")
-    | some resolved => fieldLit c f resolved extras (fun p n rfs d => defaultsForStruct c fuel p n rfs d)
-end
+    .composite (.named (c.mapPkg refPkg) (ucc refName))
+      (defaultsFieldsWith (fun f => defaultsFieldAt c f (extrasOf extra) (fun p n rfs d => defaultsForStruct c fuel p n rfs d)) fields)
+
+/-- the literal of one field at nesting budget `fuel` -/
+def defaultsField (c : Ctx) (fuel : Nat) (f : Field) (extras : List (String × Val)) : FieldLit :=
+  defaultsFieldAt c f extras (fun p n rfs d => defaultsForStruct c fuel p n rfs d)
+
+def defaultsFields (c : Ctx) (fuel : Nat) (fs : List Field) (extras : List (String × Val)) : List (String × GoExpr) :=
+  defaultsFieldsWith (fun f => defaultsField c fuel f extras) fs
+
+theorem defaultsForStruct_zero (c : Ctx) (p n : String) (fs : List Field) (extra : Val) :
+    defaultsForStruct c 0 p n fs extra = .crash "defaultsForStruct:unbounded-recursion" := rfl
+
+theorem defaultsForStruct_succ (c : Ctx) (fuel : Nat) (p n : String) (fs : List Field) (extra : Val) :
+    defaultsForStruct c (fuel + 1) p n fs extra
+      = .composite (.named (c.mapPkg p) (ucc n)) (defaultsFields c fuel fs (extrasOf extra)) := rfl
+
+theorem defaultsFields_nil (c : Ctx) (fuel : Nat) (extras : List (String × Val)) : defaultsFields c fuel [] extras = [] := rfl
+
+theorem defaultsFields_cons (c : Ctx) (fuel : Nat) (f : Field) (fs : List Field) (extras : List (String × Val)) :
+    defaultsFields c fuel (f :: fs) extras =
+      (match defaultsField c fuel f extras with
+        | .skip => defaultsFields c fuel fs extras
+        | .emit e => (ucc f.name, e) :: defaultsFields c fuel fs extras
+        | .stop => []) := rfl
+
+theorem defaultsField_eq (c : Ctx) (fuel : Nat) (f : Field) (extras : List (String × Val)) :
+    defaultsField c fuel f extras =
+      (if isBad f.ty then .emit (.crash "defaultsForStruct:malformed-field-type") else
+        match c.resolve f.ty with
+        | none => .emit (.crash "defaultsForStruct:ResolveRefs-cycle")
+        | some resolved => fieldLit c f resolved extras (fun p n rfs d => defaultsForStruct c fuel p n rfs d)) := rfl
 
 /-- `generateConstructor` -/
 def emitCtor (c : Ctx) (o : Obj) : List GoDecl :=
